@@ -407,10 +407,10 @@ def run_case(case, distinfo=None):
 # enumeration
 
 
-def edge_assignments(n, max_edges=None):
-    """Every assignment of a relation to every slot, split (inner, outer): inner between
-    installed plugins (acyclic ones only), outer to the absent name"""
-    inner_slots, outer_slots = slots(n)
+def edge_assignments(n):
+    """Every assignment of relations between the installed plugins:
+    (assignment, its edges, whether it is cyclic)"""
+    inner_slots, _outer_slots = slots(n)
     names = NAMES[:n]
     for inner in itertools.product(RELATIONS, repeat=len(inner_slots)):
         inner_edges = [[p, r, t] for (p, t), r in zip(inner_slots, inner) if r != NONE]
@@ -420,6 +420,7 @@ def edge_assignments(n, max_edges=None):
 
 
 def outer_assignments(n, budget=None):
+    """Every assignment of relations to the absent name (at most ``budget`` of them)"""
     _, outer_slots = slots(n)
     for outer in itertools.product(RELATIONS, repeat=len(outer_slots)):
         edges = [[p, r, t] for (p, t), r in zip(outer_slots, outer) if r != NONE]
@@ -492,7 +493,7 @@ def binding_cases(tier_quick):
         for _inner, inner_edges, cyclic in edge_assignments(n):
             if cyclic:
                 continue
-            if n == 3 and len(inner_edges) != (1 if tier_quick else 2):
+            if n == 3 and len(inner_edges) > (1 if tier_quick else 2):
                 continue
             for outer_edges in outer_assignments(n, 1):
                 if n >= 2 and len(inner_edges) + len(outer_edges) > 2:
@@ -533,20 +534,23 @@ def shard(args):
 
 
 def run(ctx):
-    shards = []
     skipped_cyclic = 0
-    for n in (0, 1, 2, 3):
-        max_edges = 2 if (ctx.quick and n == 3) else None
-        for _inner, inner_edges, cyclic in edge_assignments(n):
-            if max_edges is not None and len(inner_edges) > max_edges:
-                continue
-            if cyclic:
-                skipped_cyclic += 1
-                continue
-            shards.append(("edges", n, inner_edges, max_edges))
     parts = 8 if ctx.quick else 16
-    shards += [("binding", ctx.quick, part, parts) for part in range(parts)]
-    ctx.pmap(shard, shards)
+    # smallest plugin sets first, so that the recorded counterexamples are minimal ones
+    for sizes in ((0, 1), (2,), (3,)):
+        shards = []
+        for n in sizes:
+            max_edges = 2 if (ctx.quick and n == 3) else None
+            for _inner, inner_edges, cyclic in edge_assignments(n):
+                if max_edges is not None and len(inner_edges) > max_edges:
+                    continue
+                if cyclic:
+                    skipped_cyclic += 1
+                    continue
+                shards.append(("edges", n, inner_edges, max_edges))
+        if 3 in sizes:
+            shards += [("binding", ctx.quick, part, parts) for part in range(parts)]
+        ctx.pmap(shard, shards)
     ctx.acc.count("edge-assignments-skipped-cyclic", skipped_cyclic)
     ctx.meta.update(
         rule="plugin sets %s[:n], n=0..3, plus the name %r that is never installed; every "
